@@ -206,6 +206,11 @@ class BaseLoader(ABC):
             try:
                 file = urllib.request.urlopen(url)
             except urllib.request.URLError as e:
+                # An HTTPError is the response object as well: release
+                # the connection it holds.
+                close = getattr(e, "close", None)
+                if close is not None:
+                    close()
                 # urllib.request.URLError has a particularly hostile str(), so
                 # we generally don't want to pass it along to the user.
                 self._raise_open_error(url, e.reason)  # pragma: no cover
